@@ -8,6 +8,10 @@
  * opened), close (httpCloseSock).  Every case runs in a forked child so that a crash of the
  * library is an observation ("crash <kind>") and static state cannot leak between cases.
  *
+ * op "lreq <4|6> <hex>": the request arrives over a real loopback connection accepted by
+ * rfbHttpCheckFds itself from the IPv4 resp. IPv6 HTTP listener (accept branches, rfbSetNonBlocking);
+ * a call that does not return within 4 s is a stall ("crash timeout").
+ *
  * argv[1] = sandbox root (httpDir = root ++ suffix of the cfg line). */
 #define _GNU_SOURCE
 #include <rfb/rfb.h>
@@ -24,6 +28,8 @@
 #include <string.h>
 #include <stdarg.h>
 #include <signal.h>
+#include <netinet/in.h>
+#include <arpa/inet.h>
 #include <stdint.h>
 
 ssize_t __real_read(int fd, void *buf, size_t count);
@@ -34,7 +40,7 @@ DIR *__real_opendir(const char *path);
 int __real_close(int fd);
 
 static const char *root = "";
-static int in_req = 0, http_fd = -1, peer_fd = -1, nreads = 0;
+static int in_req = 0, http_fd = -1, peer_fd = -1, nreads = 0, real_io = 0;
 /* scripted segments */
 typedef struct { int kind; unsigned char *p; size_t n, off; } segm;   /* kind 0 data, 1 EOF, 2 ERR */
 static segm segs[256]; static int nseg = 0, curseg = 0;
@@ -55,7 +61,7 @@ static void drain_peer(void) {
 }
 
 ssize_t __wrap_read(int fd, void *buf, size_t count) {
-  if (in_req && fd == http_fd) {
+  if (in_req && fd == http_fd && !real_io) {
     nreads++;
     if (count == 0) return 0;                       /* as the kernel does */
     if (curseg >= nseg) { errno = EAGAIN; return -1; }
@@ -195,10 +201,52 @@ static void __attribute__((noinline)) poison_stack(void) {
   __asm__ volatile("" : : "r"(area) : "memory");
 }
 
+/* the request comes in through a real listener: both accept branches of rfbHttpCheckFds */
+static void do_lreq(char *line) {
+  char *sv = NULL, *fam, *h; unsigned char *d; size_t n; int six, l4, l6 = -1, c; socklen_t sl;
+  struct sockaddr_in a4; struct sockaddr_in6 a6;
+  strtok_r(line, " \n", &sv); fam = strtok_r(NULL, " \n", &sv); h = strtok_r(NULL, " \n", &sv);
+  puts("lreq"); fflush(stdout);
+  if (!screen || !fam || !h) { puts("?? lreq"); return; }
+  six = (fam[0] == '6');
+  if (screen->httpSock != RFB_INVALID_SOCKET) { __real_close(screen->httpSock); screen->httpSock = RFB_INVALID_SOCKET; }
+  memset(&a4, 0, sizeof a4); a4.sin_family = AF_INET; a4.sin_addr.s_addr = htonl(INADDR_LOOPBACK);
+  l4 = socket(AF_INET, SOCK_STREAM, 0); bind(l4, (struct sockaddr *)&a4, sizeof a4); listen(l4, 4);
+  sl = sizeof a4; getsockname(l4, (struct sockaddr *)&a4, &sl);
+  memset(&a6, 0, sizeof a6); a6.sin6_family = AF_INET6; a6.sin6_addr = in6addr_loopback;
+  l6 = socket(AF_INET6, SOCK_STREAM, 0);
+  if (l6 >= 0 && (bind(l6, (struct sockaddr *)&a6, sizeof a6) < 0 || listen(l6, 4) < 0)) { __real_close(l6); l6 = -1; }
+  if (l6 >= 0) { sl = sizeof a6; getsockname(l6, (struct sockaddr *)&a6, &sl); }
+  if (six && l6 < 0) { puts("unsupported"); fflush(stdout); __real_close(l4); return; }
+  screen->httpListenSock = l4; screen->httpListen6Sock = l6;
+  c = socket(six ? AF_INET6 : AF_INET, SOCK_STREAM, 0);
+  if (connect(c, six ? (struct sockaddr *)&a6 : (struct sockaddr *)&a4, six ? sizeof a6 : sizeof a4) < 0) { puts("?? connect"); return; }
+  n = unhex(h, &d); __real_write(c, d, n);
+  fcntl(c, F_SETFL, fcntl(c, F_GETFL) | O_NONBLOCK);
+  usleep(20000);
+  npend = 0; real_io = 1; http_fd = -1; peer_fd = c;
+  alarm(4);
+  in_req = 1;
+  rfbHttpCheckFds(screen);                 /* accepts */
+  http_fd = screen->httpSock;
+  rfbHttpCheckFds(screen);                 /* reads and answers */
+  in_req = 0;
+  alarm(30);
+  flush_send(); drain_peer();
+  printf("status %s\n", screen->httpSock == RFB_INVALID_SOCKET ? "done" : "again");
+  fflush(stdout);
+  if (screen->httpSock != RFB_INVALID_SOCKET) { __real_close(screen->httpSock); screen->httpSock = RFB_INVALID_SOCKET; }
+  __real_close(c); __real_close(l4); if (l6 >= 0) __real_close(l6);
+  screen->httpListenSock = idle_pipe[0]; screen->httpListen6Sock = RFB_INVALID_SOCKET;
+  real_io = 0; http_fd = -1; peer_fd = -1;
+  free(d);
+}
+
 static void run_case(char **lines, int n) {
   int i;
   for (i = 0; i < n; i++) {
     if (!strncmp(lines[i], "cfg ", 4)) do_cfg(lines[i]);
+    else if (!strncmp(lines[i], "lreq", 4)) do_lreq(lines[i]);
     else if (!strncmp(lines[i], "req", 3)) do_req(lines[i]);
     else if (!strncmp(lines[i], "atoi ", 5)) { unsigned char *d; char *e = strchr(lines[i] + 5, '\n'); if (e) *e = 0; unhex(lines[i] + 5, &d); printf("atoi %d\n", atoi((char *)d)); fflush(stdout); }
     else if (!strncmp(lines[i], "strs ", 5)) { }
